@@ -18,7 +18,32 @@ class KxError(Exception):
     pass
 
 
-def make_scratch(repo=None):
+# "Universes": builds that differ only in the version of unicode-ident, a build-time dependency of the derive macros
+# that geo-types uses (all four versions are in the offline registry).  The generated code is identical, but every crate
+# hash downstream of it -- and with it every mangled symbol name -- changes.  CBMC 6.11 / Kani 0.68 verdicts were
+# observed to depend on that for harnesses that keep heap pointers in statics (DESIGN 11.8), so an unreplayable
+# refutation is only believed when it is reproduced in builds with different hashes.
+UNIVERSES = ["1.0.25", "1.0.26", "1.0.24", "1.0.18"]
+PINNED_LOCK = os.path.join(VERIF, "contracts", "Cargo.lock.pinned")
+
+
+def set_universe(scratch, version):
+    env = dict(os.environ, CARGO_NET_OFFLINE="true")
+    p = subprocess.run(["cargo", "update", "--offline", "-p", "unicode-ident", "--precise", version], cwd=scratch,
+                       capture_output=True, text=True, env=env)
+    if p.returncode != 0:
+        raise KxError("cannot select universe %s: %s" % (version, (p.stderr or "")[-300:]))
+
+
+def current_universe(scratch):
+    try:
+        m = re.search(r'name = "unicode-ident"\nversion = "([^"]+)"', open(os.path.join(scratch, "Cargo.lock")).read())
+        return m.group(1) if m else None
+    except OSError:
+        return None
+
+
+def make_scratch(repo=None, universe=None):
     repo = repo or REPO
     base = os.environ.get("VERIF_SCRATCH", tempfile.gettempdir())
     d = tempfile.mkdtemp(prefix="kx-", dir=base)
@@ -56,6 +81,13 @@ def make_scratch(repo=None):
             for fn in os.listdir(shared):
                 shutil.copy2(os.path.join(shared, fn), os.path.join(d, dest, fn))
         injected.append(modfile)
+    # the dependency resolution is part of what is verified: without a lock file cargo would pick the newest versions in
+    # the offline registry
+    if not os.path.exists(os.path.join(d, "Cargo.lock")) and os.path.exists(PINNED_LOCK):
+        shutil.copy2(PINNED_LOCK, os.path.join(d, "Cargo.lock"))
+    universe = universe or os.environ.get("KX_UNIVERSE")
+    if universe:
+        set_universe(d, universe)
     return d
 
 
